@@ -106,7 +106,8 @@ Apply(st0, e) ==
         r == st.wr[w]
         flt == e.res = "fault"
     IN CASE e.op = "mkdir" ->
-              IF flt THEN SetW(st, w, [r EXCEPT !.pc = "failed", !.err = "os"])
+              \* Path.mkdir(exist_ok=True) ignores any OSError when the directory is there
+              IF flt /\ ~st.dir THEN SetW(st, w, [r EXCEPT !.pc = "failed", !.err = "os"])
               ELSE [SetW(st, w, [r EXCEPT !.pc = "open", !.i = 1]) EXCEPT !.dir = TRUE]
          [] e.op = "open" ->
               IF flt THEN SetW(st, w, [r EXCEPT !.pc = "failed", !.err = "os"])
